@@ -314,3 +314,5 @@ _quick("C12", "C12_candidate", "the real ArbiterVoter.DoProposal over three memb
 _quick("C12", "C12_candidate_commit", "the candidate's own commit round fails (remote answers lost) after its own acceptor accepted a foreign candidate's proposal and commit — naming the foreign candidate or this member as leader — through the real remote handlers (or nothing foreign happened): the pending foreign commit survives and a third candidacy's proposal + commit are refused (symbolic executor only)", ["-witness", "0"], reach=["end", "foreign-committed"], native=False)
 
 _quick("C11", "C11_shared", "holder A (Count 5) with default / persist-immediately / never-persist timing, then B asks for the key with the require-ack flag, one follower configured: B is not reported SUCCED before its record is written and acknowledged, and is registered for acknowledgement", ["-witness", "3"])
+
+_quick("C07", "C07_relock", "a hold locked with E = 2 s (Rcount 2, persisted at once) and re-locked by its LockId one second later with E = 120 s; restart 0 / 2 / 6 s later: depth 2 and the re-lock's deadline restored", ["-witness", "3"])
